@@ -2069,7 +2069,8 @@ func (e *CoreExtension) filterRound(value interface{}, args ...interface{}) (int
 		return int(result), nil
 	}
 
-	return result, nil
+	// A negative number that rounds to zero is zero, not "-0"
+	return positiveZero(result), nil
 }
 
 func (e *CoreExtension) filterNl2Br(value interface{}, args ...interface{}) (interface{}, error) {
